@@ -114,6 +114,8 @@ class BarrelList(list):
             if rel_idx < len_list:
                 break
             rel_idx -= len_list
+        else:
+            return None, None  # at or past the end
         if rel_idx < 0:
             return None, None
         return list_idx, rel_idx
@@ -139,7 +141,11 @@ class BarrelList(list):
         else:
             list_idx, rel_idx = self._translate_index(index)
             if list_idx is None:
-                raise IndexError()
+                # like list.insert(), clamp to the ends
+                if index < 0:
+                    list_idx, rel_idx = 0, 0
+                else:
+                    list_idx, rel_idx = len(self.lists) - 1, len(self.lists[-1])
             self.lists[list_idx].insert(rel_idx, item)
             self._balance_list(list_idx)
         return
